@@ -528,8 +528,8 @@ def main():
     # a history costs seconds here (every bundle is run once per fault position): in the quick tier
     # failing histories are reported unshrunk (classes do not depend on minimality)
     C02.tune_explore(0 if common.tier() == "quick" else 20)
-    explore.explore(rep, "checks.C04", "C04Monitor", n_quick=48, n_thorough=1600,
-                    budget_quick_s=18)
+    explore.explore(rep, "checks.C04", "C04Monitor", n_quick=64, n_thorough=1600,
+                    budget_quick_s=25)
     tot = {}
     for p in glob.glob(os.path.join(d, "*.jsonl")):
       for line in open(p):
